@@ -989,11 +989,15 @@ def _compute_delj(dx, MInt, VInt, axis=0):
         upslice = tuple(upslice)
 
         wj = 2 *MInt*dx[upslice]
-        epsj = numpy.exp(wj/VInt[upslice])
+        uj = wj/VInt[upslice]
+        epsj = numpy.exp(uj)
         delj = (-epsj*wj + epsj * VInt[upslice] - VInt[upslice])/(wj - epsj*wj)
         # These where statements filter out edge case for delj
         delj = numpy.where(numpy.isnan(delj), 0.5, delj)
         delj = numpy.where(numpy.isinf(delj), 0.5, delj)
+        # The expression above is 1/(1-exp(-u)) - 1/u, which loses all
+        # accuracy to cancellation as u -> 0. Use its series there.
+        delj = numpy.where(numpy.abs(uj) < 1e-2, 0.5 + uj/12 - uj**3/720, delj)
     else:
         delj = 0.5
     return delj
